@@ -128,6 +128,9 @@ def parse_pattern(s):
     for tok in s.split("/"):
         if not tok:
             continue
+        if tok == "*":
+            lv.append(("~", ".*"))          # RoutingKeyBuilder::all() is the regex level `.*`
+            continue
         if tok[0] not in "=~":
             raise Invalid()
         lv.append((tok[0], tok[1:]))
@@ -144,7 +147,7 @@ def level_matches(level, name):
     r = _rx.get(text)
     if r is None:
         r = _rx[text] = re.compile(text)
-    return r.fullmatch(name) is not None
+    return r.fullmatch(name.replace("^", "\n")) is not None       # `^` is the wire form of a line feed inside a level name
 
 
 def match_key(pat, key):
@@ -332,7 +335,7 @@ def valid(case):
 
 # ------------------------------------------------------------------ generators
 
-NAME_POOL = ["a", "ab", "b", "ba", "aa", "abb", "a!b"]      # `!` stands for a `/` INSIDE a level name (see rt_main.cpp decodeName)
+NAME_POOL = ["a", "ab", "b", "ba", "aa", "abb", "a!b", "", "a^b", "^"]      # `!` = a `/` INSIDE a level name, `^` = a line feed (rt_main.cpp decodeName), "" = the empty name
 
 
 def gen_regex(rng):
@@ -375,7 +378,7 @@ def gen_level(rng, names):
     if k < 40:
         return "=" + rng.pick(names)
     if k < 60:
-        return "~.*"
+        return "*" if rng.chance(1, 2) else "~.*"      # RoutingKeyBuilder::all()  /  the same regex written out
     if k < 70:
         return "~" + rng.pick(["a.*", "[ab]+", "a?b+", ".+b", "(a|ab)", "a|b", "(a|b)b?", "[^a].*", ".", "a.?"])
     if k < 76:
@@ -409,7 +412,9 @@ def gen_case(rng, maxops, force_sig=None):
     if k3 < 3:
         names = NAME_POOL[:3]
     elif k3 == 3:
-        names = ["a", "b", "a!b"]          # a level name containing the separator character: ("a/b") vs ("a","b")
+        names = rng.pick([["a", "b", "a!b"],          # a level name containing the separator character: ("a/b") vs ("a","b")
+                          ["a", "", "b"],             # the empty level name (what splitting "a//b" yields): not the root
+                          ["a", "a^b", "^"]])         # names containing a line feed: no `.` matches them, `[^a]` does
     else:
         names = sorted(set(rng.pick(NAME_POOL) for _ in range(nnames + 1)))
     maxdepth = 2 + rng.below(2) if rng.chance(4, 5) else 4
@@ -461,7 +466,7 @@ def gen_case(rng, maxops, force_sig=None):
         return "/" + "/".join(gen_level(rng, names) for _ in range(n)) if n else "/"
 
     def probes():
-        emit("rt snap %s %d" % (",".join(names), min(maxdepth, 3)))
+        emit("rt snap %s %d" % (",".join([n for n in names if n] or ["a"]), min(maxdepth, 3)))
         for p in PROBES[:maxdepth + 1]:
             emit("rt notify %s %s" % (p, gen_arg(rng, sig)))
         if rng.chance(1, 2):
